@@ -108,6 +108,9 @@ func ReadDataType(source io.Reader, version primitive.ProtocolVersion) (decoded 
 			return Uuid, nil
 		case primitive.DataTypeCodeVarchar:
 			return Varchar, nil
+		case primitive.DataTypeCodeText:
+			// protocol v2 only: text is an alias of varchar
+			return Varchar, nil
 		case primitive.DataTypeCodeVarint:
 			return Varint, nil
 		case primitive.DataTypeCodeTimeuuid:
